@@ -162,12 +162,14 @@ def cases(rng, ctx):
     out.append({'kind': 'label', 's': '$B$9', 'pre': ['SUM(D$3:$B$9)']})
     out.append({'kind': 'label', 's': 'A2', 'pre': ['SUM(C7:A2)', 'C7']})
     # non-labels
-    junk_alphabet = 'Aa1$ -_.:\n\t١éА'
+    # (ß ı ſ ﬁ ﬆ: characters that str.upper() turns into ASCII letters; K: the Kelvin sign, which str.lower() turns into k)
+    junk_alphabet = 'Aa1$ -_.:\n\t١éАßıſﬁﬆ\u212a'
     for _ in range(800 * scale):
         n = rng.randrange(0, 7)
         out.append({'kind': 'label', 's': ''.join(rng.choice(junk_alphabet) for _ in range(n))})
     for s in ['', '$', 'A', '1', '1A', 'A1\n', '\nA1', 'A1 ', ' A1', 'A$$1', '$$A1', 'A1$', 'A 1', 'A-1', 'A1.0',
-              'A١', 'А1', 'A1\n\n', 'A1\r', '$1', 'A$', '$A$', 'AA', '11', 'A1B2', 'A1:B2']:
+              'A١', 'А1', 'A1\n\n', 'A1\r', '$1', 'A$', '$A$', 'AA', '11', 'A1B2', 'A1:B2',
+              'ß1', 'ı7', 'ſ3', 'ﬁ12', '$ß$1', 'Aß1', 'ﬆ$5', '\u212a9', 'a\u212a1']:
         out.append({'kind': 'label', 's': s})
     return out
 
